@@ -446,6 +446,7 @@ def run_base(ctx, idx, case, n_cfg):
                                'storage': case['storage'], 'raised': raised})
                 return None
             # some other error: not the known defect -> let the normal path report it
+    vals, work_eps = cell_values(case, paths)
     k = scale_of(v for f in vals for row in f for v in row)
     enc = Enc(case)
     tdict = tree_dict(case)
